@@ -358,4 +358,6 @@ def check(ctx):
                stmt=f"documented correction {o} in {mi.relpath}")
     ctx.require_min("docstrings stating the MH correction ratio", stated, 1)
 
-
+    # ---- shared mechanisms: the neighbour's rules run as obligations of this property
+    ctx.include("C05", "C06.R6", only=None)
+    ctx.rule("R6", "shared mechanisms, run as obligations of this property: the reported acceptance probability is mh_step's exact min(1, ratio) (C05).")
